@@ -130,6 +130,9 @@ def run(ctx):
               'self.db[k] = [] can run although k is present (an id list is reset, incarnations are lost): %s'
               % (probs[0][0].describe()[:200] if probs else ''))
 
+    # the liveness test create_object relies on ("client ids are reused only after their delete_id") is the destroy flag
+    from .c03 import check_alive_flag
+    check_alive_flag(ctx, 'C02.1')
     # ---- C02.2 index = generation ---------------------------------------------------------------
     n_app = 0
     for p in cpaths:
